@@ -15,7 +15,8 @@ def run(ctx):
                 "Distinct = distinct texts; non-trivial = a gap variant, or a query with at least two statements.")
     ctx.assumptions = ["TLC 1.8 + CommunityModules", "the pool statements' ASTs are bound to single-statement parsing by C01",
                        "comments are inserted flanked by whitespace, as the property states"]
-    parts = [("spell", g.gen_spellings(ctx, comments=True), "c01"), ("query", g.gen_queries(ctx, 2 if ctx.quick else 3), "c16q")]
+    parts = [("spell", g.gen_spellings(ctx, comments=True), "c01"), ("query", g.gen_queries(ctx, 2 if ctx.quick else 3), "c16q"),
+             ("pairs", g.gen_pairs(ctx), "c16q")]
     for name, cf, suite in parts:
         of = ctx.path("obs_%s.ndjson" % name)
         ctx.drive(suite, cf, of)
